@@ -143,6 +143,40 @@ def branch_shapes(ck, exe, work):
     return len(rl)
 
 
+TRAP = ["DIV", "DIVS", "UDIV", "UDIVS", "MOD", "MODS", "UMOD", "UMODS"]
+FLAG = ["ADDO", "ADDOS", "SUBO", "SUBOS", "MULO", "MULOS", "UMULO", "UMULOS"]
+
+
+def search_effects(ck, exe, work):
+    """search stage for broken theorems about the do-not-move / do-not-delete opcode lists: for every trapping
+    or flag-setting opcode that loop_invariant_p accepts now, run a loop whose body holds that instruction with
+    invariant operands behind a guard (trap) or in front of its overflow branch (flag)"""
+    try:
+        gen = open(os.path.join(VERIF, "lean", "MirVerif", "Gen", "C01_Effects.lean")).read()
+        excl = set(re.findall(r'"(\w+)"', re.search(r"def licmExcluded : List String := \[(.*?)\]", gen).group(1)))
+    except Exception:
+        return
+    for op in [c for c in TRAP + FLAG if c not in excl]:
+        lo = op.lower()
+        if op in TRAP:
+            body = (f"  beq skip, b, 0\n  {lo} t, a, b\n  add s, s, t\nskip:\n")
+            plan = "call f ii_i 7 0\ncall f ii_i 7 2\n"
+        else:
+            body = (f"  {lo} t, a, b\n  {'ubno' if op[0] == 'U' else 'bno'} skip\n  add s, s, 1000\nskip:\n  add s, s, t\n")
+            plan = "call f ii_i 7fffffffffffffff 7fffffffffffffff\ncall f ii_i 7fffffff 7fffffff\ncall f ii_i 1 2\n"
+        text = ("m: module\nexport f\nf: func i64, i64:a, i64:b\n  local i64:s, i64:t, i64:n\n  mov s, 0\n  mov n, 3\nloop:\n" + body +
+                "  sub n, n, 1\n  bgt loop, n, 0\n  ret s\n  endfunc\n  endmodule\n")
+        rc, lines, err = progtie.run_engine(exe, ENGINES, text, plan, work, "effsearch", timeout=60)
+        bad = [l for l in lines if l.startswith("R ") and " | =" not in l] + [l for l in lines if l.startswith("E ")]
+        if rc != 0 or bad:
+            ck.violation({"stage": "search", "theorem": "licm_hoists_only_pure (Props/C01Effects.lean)", "opcode": op,
+                          "mir": text, "plan": plan, "engines": ENGINES, "lines": bad[:4]},
+                         what=f"loop_invariant_p accepts {op}: a guarded/flag-coupled {lo} with loop-invariant operands is hoisted: {(bad + [err[-100:]])[0][:160]}")
+            return
+        ck.broken_ties.append({"kind": "theorem", "name": "licm_hoists_only_pure", "opcode": op,
+                               "note": "opcode no longer excluded from hoisting but the targeted loop program did not expose it"})
+
+
 def run_corpus(ck, exe, work):
     n = 0
     for mir in sorted(glob.glob(os.path.join(VERIF, "corpus", "C01", "*.mir"))):
@@ -167,12 +201,12 @@ def run_corpus(ck, exe, work):
 def main():
     ck = Check("C01")
     quick = ck.tier == "quick"
-    gate_ok = ck.proof_gate(["MirVerif.Props.C01", "MirVerif.Props.C01Exprs", "MirVerif.Props.C01PhiElim"],
+    gate_ok = ck.proof_gate(["MirVerif.Props.C01", "MirVerif.Props.C01Exprs", "MirVerif.Props.C01PhiElim", "MirVerif.Props.C01Effects"],
                   support_modules=["MirVerif.Model.GenTable", "MirVerif.Model.GenCanon", "MirVerif.Lemmas.GenTable",
                                    "MirVerif.Lemmas.GenPow2", "MirVerif.Lemmas.GenExt",
-                                   "MirVerif.Model.PhiElim", "MirVerif.Lemmas.PhiElim"],
+                                   "MirVerif.Model.PhiElim", "MirVerif.Lemmas.PhiElim", "MirVerif.Model.Effects"],
                   bridge_modules=["MirVerif.Lemmas.BridgeC01", "MirVerif.Lemmas.BridgeC02"],
-                  translators=["c01_tables.py", "c02_tables.py", "c01_exprs.py"])
+                  translators=["c01_tables.py", "c02_tables.py", "c01_exprs.py", "c01_effects.py"])
     if not quick:
         ck.leanchecker(["MirVerif.Props.C01"])
     exe = ck.cc("engine", ["harness/engine.c", os.path.join(REPO, "mir.c"), os.path.join(REPO, "mir-gen.c")],
@@ -194,6 +228,7 @@ def main():
         ck.finish()
     if not gate_ok:
         search_exprs(ck, exe, work)
+        search_effects(ck, exe, work)
     ncorp = run_corpus(ck, exe, work)
     ncorp += branch_shapes(ck, exe, work)
     nprogs = 6000 if quick else 120000
